@@ -109,7 +109,7 @@ fn tamper_all(ctx: &mut Ctx, enc: &Envelope, key: &SymmetricKey, rng: &mut crate
 }
 
 pub fn run(ctx: &mut Ctx) {
-    let total = ctx.n(16_000, 400_000);
+    let total = ctx.n(16_000, 40_000);
     for case in ctx.cases(total) {
         ctx.begin_case(case);
         let mut rng = ctx.rng(case);
